@@ -271,6 +271,14 @@ func c13Case(w *fw.W, idx int, r *fw.Rand) {
 			got, ok := vm.Ret.ReadString()
 			if !ok || got != text {
 				w.Violate(idx, "string", "string|literal-value|"+fmt.Sprintf("%q", string(q)), desc, fmt.Sprintf("evaluates to %s, want %q", vm.Ret.ToRepr(), text), nil)
+			} else if r.P(1, 3) {
+				// the text a run returned stays that text when the same VM evaluates something else
+				kept := vm.Ret
+				other := "'other " + fmt.Sprint(idx) + "' + 'text'"
+				fw.Guard(func() { _ = vm.Run(other); _ = vm.Run("[1, 2, 3]") })
+				if again, ok2 := kept.ReadString(); !ok2 || again != text {
+					w.Violate(idx, "string", "string|kept-result-changed", desc, fmt.Sprintf("the result kept from the run reads %s after two later runs on the same VM, want %q", kept.ToRepr(), text), nil)
+				}
 			}
 		}
 		if utf8.RuneCountInString(text) > 0 {
